@@ -49,36 +49,42 @@ TEXT = {
 }
 # rules added after the second round of independently seeded changes
 TECH_ADD = {
- "C01": "loop-carried-value classification of the writer loops (per-cue independence); emit-dominates-back-edge rule; fixed-radix argument rule; loop-nesting rule for the trailing-blank-line removal at both cue-completion points; dominator must-pass-through of the running emphasis state before every item addition in parseTextSrt; identifier origin rule (range index only)",
- "C02": "loop-carried-value classification of the writer loops; dominator must-pass-through of the open-tag stack read before every item addition; emit-dominates-back-edge rule; fixed-radix argument rule; identifier origin rule: the integer rendered as cue identifier derives from the range index only",
- "C03": "value-origin analysis of the language field against the language table; abstract interpretation of float exactness (INT/QUOT/BAD) at every truncation and quotient-before-scale rule; per-cue independence; emit-dominates-back-edge; fixed radix; own-identifier rule on the map stores of the reader (definition tables keyed by the element's ID); forward taint from `innerxml` struct fields to struct-field stores (raw markup must pass the XML decoder); magnitude analysis of the tick / frame conversions with declared field domains",
- "C04": "reference set of recognised section spellings (switch and EqualFold forms); fixed-radix argument rule with constant propagation through parameters and phis; per-cue independence; emit-dominates-back-edge; run/line separator agreement of newSSAEventFromItem and ssaEvent.item; control-dependence of every content-recording site on a known section; loop-carried pending-pointer rule (no way round the override-block loop replaces it unused)",
- "C05": "exit-edge classification of the block-reading loop; fixed points of the writer tables under the normal form read from the call (evaluated with /repo's x/text); language value origins; rounding-direction extraction of the frame conversions against the frame-rate table; dominance of the frame-rate table lookup over the GSI store; start-box code agreement reader/writer; offset add/subtract symmetry; per-cue independence; emit-dominates-back-edge; fixed radix",
- "C06": "evaluation of the (G0 position ← sub-set index) pairs installed by updateCharset (indexed loop through a constant array, or constant-bounded copies) against ETS 300 706 table 36; post-dominance of a fresh page (created with the header time) after every receiving = true",
- "C07": "extraction of the orderings against zero under which the CLI ends in log.Fatal (through helper functions) compared with what each operation may refuse; emit-dominates-back-edge over the five writers; GSI frame-rate validation; STL start-box agreement; writers-truncate zero-rule over the formatter closure; reference-edge and marking-order rules of Optimize",
+ "C01": "loop-carried-value classification of the writer loops (per-cue independence); emit-dominates-back-edge rule; fixed-radix argument rule; loop-nesting rule for the trailing-blank-line removal at both cue-completion points; dominator must-pass-through of the running emphasis state before every item addition in parseTextSrt; identifier origin rule (range index only); zero-rule on Tokenizer.Text (raw token only)",
+ "C02": "loop-carried-value classification of the writer loops; dominator must-pass-through of the open-tag stack read before every item addition; emit-dominates-back-edge rule; fixed-radix argument rule; identifier origin rule: the integer rendered as cue identifier derives from the range index only; zero-rule on Tokenizer.Text; exactness rules on WebVTTTimestampMap.Offset",
+ "C03": "value-origin analysis of the language field against the language table; abstract interpretation of float exactness (INT/QUOT/BAD) at every truncation and quotient-before-scale rule; per-cue independence; emit-dominates-back-edge; fixed radix; own-identifier rule on the map stores of the reader (definition tables keyed by the element's ID); forward taint from `innerxml` struct fields to struct-field stores (raw markup must pass the XML decoder); magnitude analysis of the tick / frame conversions with declared field domains; bijectivity of the BiMap tables used inversely; all returns of newTTMLXmlDecoder are NewTokenDecoder results",
+ "C04": "reference set of recognised section spellings (switch and EqualFold forms); fixed-radix argument rule with constant propagation through parameters and phis; per-cue independence; emit-dominates-back-edge; run/line separator agreement of newSSAEventFromItem and ssaEvent.item; control-dependence of every content-recording site on a known section; loop-carried pending-pointer rule (no way round the override-block loop replaces it unused); value-origin rule on the Style column store and exact-name lookup in ssaEvent.item",
+ "C05": "exit-edge classification of the block-reading loop; fixed points of the writer tables under the normal form read from the call (evaluated with /repo's x/text); language value origins; rounding-direction extraction of the frame conversions against the frame-rate table; dominance of the frame-rate table lookup over the GSI store; start-box code agreement reader/writer; offset add/subtract symmetry; per-cue independence; emit-dominates-back-edge; fixed radix; bijectivity of BiMap tables; factory call of the styler inside the column loop; dominating conditions of every GSI override mention only the overridden field",
+ "C06": "evaluation of the (G0 position ← sub-set index) pairs installed by updateCharset (indexed loop through a constant array, or constant-bounded copies) against ETS 300 706 table 36; post-dominance of a fresh page (created with the header time) after every receiving = true; factory call inside the column loop; loop-carried-value classification of teletextPID (first teletext PID wins)",
+ "C07": "extraction of the orderings against zero under which the CLI ends in log.Fatal (through helper functions) compared with what each operation may refuse; emit-dominates-back-edge over the five writers; GSI frame-rate validation; STL start-box agreement; writers-truncate zero-rule over the formatter closure; reference-edge and marking-order rules of Optimize; the structural rules of C09-C15 (merge shape, stable order, full scan, twin update, Fragment sweep, whole copy, order after insert, complementary exit, text identity, cut and filler, origin tests) run for C07 too; flag variables are never stored to",
  "C09": "CLI guard orderings for -s; comparison-shape rule: every comparison of a cue boundary in Add is against the constant 0 (EndAt with <=)",
- "C10": "CLI guard orderings for -f; sweep rules on Fragment: bound is a maximum accumulated over all cues, window phis advance by exactly f, no store to a slice inside a range over it",
- "C14": "constant sources of the cut index against its guard; CFG reachability of the filler from the cut and freshness of the Duration() test",
- "C15": "magnitude (interval) analysis of integer products over the 24 h domain; call isomorphism for helper closures; CLI guard orderings",
- "C16": "abstract interpretation of float exactness at every truncation; quotient-before-scale rule; rounding-direction agreement of the STL frame conversions; division by a truncated integer quotient; writers-truncate zero-rule (no Round/Ceil in the formatter closure)",
- "C11": "guard relations followed through short-circuit phis; absence of the String() equality is a violation",
+ "C10": "CLI guard orderings for -f; sweep rules on Fragment: bound is a maximum accumulated over all cues, window phis advance by exactly f, no store to a slice inside a range over it; no data-dependent early return before the sweep; stable order",
+ "C14": "constant sources of the cut index against its guard; CFG reachability of the filler from the cut and freshness of the Duration() test; shape of every comparison of a boundary with d (StartAt >=, EndAt >); unexported package-level slices/maps never stored into results",
+ "C15": "magnitude (interval) analysis of integer products over the 24 h domain; call isomorphism for helper closures; CLI guard orderings; flag variables are never stored to or re-pointed",
+ "C16": "abstract interpretation of float exactness at every truncation; quotient-before-scale rule; rounding-direction agreement of the STL frame conversions; division by a truncated integer quotient; writers-truncate zero-rule (no Round/Ceil in the formatter closure); Duration.Milliseconds/Microseconds results are truncated quotients (scaling them is refused); writers-truncate over the whole writer closure",
+ "C11": "guard relations followed through short-circuit phis; absence of the String() equality is a violation; staleness of the exit test's EndAt operand; join-shaped identity strings; stable order on StartAt itself",
  "C18": "zero-rule with positive control: end-of-input sentinels (io.EOF, ErrNoMorePackets) are only ever compared, never stored or returned",
+ "C13": "no data-dependent early return before the clearing loops",
+ "C19": "GSI override guards mention only the overridden metadata field",
+ "C20": "unexported package-level slices/maps are never stored into values handed out",
 }
 TEXT_ADD = {
- "C01": " Added: nothing computed for one cue is carried into the next by the writer; every loop of the writer emits for every element; integer fields are read in base 10; trailing blank lines are stripped iteratively at the next cue and at end of source. No line item is built in parseTextSrt without reading the running emphasis state; cue numbers are positional.",
- "C02": " Added: nothing computed for one cue is carried into the next by the writer; no line item is created without reading the open-tag stack; every writer loop emits for every element. Cue identifiers are positional (never Item.Index).",
- "C03": " Added: the language written / read comes only from the language table; no truncation of an inexact float product, no integer quotient scaled afterwards (tick, frame and offset-time conversions); writer emits every style/region/cue. Style and region tables are keyed by the element's own ID (shared parents keep all their children). Raw inner XML reaches text only through the XML decoder; tick and frame conversions cannot overflow for 24 h at 10 MHz.",
- "C04": " Added: the reader still recognises the five section spellings; integer fields are read in base 10 (16 for colours). Runs are joined with nothing and lines with a separator the reader splits at (a genuine defect repaired); content of unknown sections is never recorded; an override block is never dropped by the run-splitting loop.",
- "C05": " Added: the TTI loop ends only on end of source or error; writer table keys are fixed points of the applied normal form; GSI frame rate is a rate of the table; timecode offsets are applied symmetrically; frame rounding directions compose to the identity; start-box agreement (one more known finding).",
- "C06": " Added: the 13 national option characters are installed at the positions of ETS 300 706 table 36. Reception of a page instance always starts on a page object created with that header's time.",
- "C07": " Added: the CLI refuses only parameter values the operation may refuse; writers emit every element; STL destination gets a valid frame rate. Timestamp formatters never round to nearest or up; Optimize marks ancestors of every used style.",
- "C14": " Added: the not-found value of the cut index is not a possible index; the filler decision is reachable after the cut and uses a duration evaluated after it.",
- "C15": " Added: no integer product can overflow for instants within 24 h.",
- "C16": " Added: truncations act on exact integers or single correctly rounded quotients; STL reader and writer rounding directions compose to the identity for the table's frame rates. No formatter rounds to nearest or up; no division by a truncated quotient.",
+ "C01": " Added: nothing computed for one cue is carried into the next by the writer; every loop of the writer emits for every element; integer fields are read in base 10; trailing blank lines are stripped iteratively at the next cue and at end of source. No line item is built in parseTextSrt without reading the running emphasis state; cue numbers are positional. The HTML tokenizer's unescaped Text() is never used.",
+ "C02": " Added: nothing computed for one cue is carried into the next by the writer; no line item is created without reading the open-tag stack; every writer loop emits for every element. Cue identifiers are positional (never Item.Index). The HTML tokenizer's unescaped Text() is never used; the timestamp-map offset is computed without truncating to milliseconds first.",
+ "C03": " Added: the language written / read comes only from the language table; no truncation of an inexact float product, no integer quotient scaled afterwards (tick, frame and offset-time conversions); writer emits every style/region/cue. Style and region tables are keyed by the element's own ID (shared parents keep all their children). Raw inner XML reaches text only through the XML decoder; tick and frame conversions cannot overflow for 24 h at 10 MHz. Lookup tables used inversely are bijections; the paragraph decoder always goes through the <br>-holding token reader.",
+ "C04": " Added: the reader still recognises the five section spellings; integer fields are read in base 10 (16 for colours). Runs are joined with nothing and lines with a separator the reader splits at (a genuine defect repaired); content of unknown sections is never recorded; an override block is never dropped by the run-splitting loop. The Style column is stored and looked up verbatim.",
+ "C05": " Added: the TTI loop ends only on end of source or error; writer table keys are fixed points of the applied normal form; GSI frame rate is a rate of the table; timecode offsets are applied symmetrically; frame rounding directions compose to the identity; start-box agreement (one more known finding). A styler is created per column; a GSI field is overridden under a test of its own metadata field only; tables are bijections.",
+ "C06": " Added: the 13 national option characters are installed at the positions of ETS 300 706 table 36. Reception of a page instance always starts on a page object created with that header's time. The first teletext PID of the PMT is selected; a styler is created per column.",
+ "C07": " Added: the CLI refuses only parameter values the operation may refuse; writers emit every element; STL destination gets a valid frame rate. Timestamp formatters never round to nearest or up; Optimize marks ancestors of every used style. The structural clauses of the operations (C09-C15) are decided for C07 as well; the CLI never rewrites its flag values.",
+ "C14": " Added: the not-found value of the cut index is not a possible index; the filler decision is reachable after the cut and uses a duration evaluated after it. A cue starting exactly at d is removed (StartAt >= d), a cue is clipped only when it ends after d; the filler shares no package-level memory.",
+ "C15": " Added: no integer product can overflow for instants within 24 h. The CLI never rewrites its flag values.",
+ "C16": " Added: truncations act on exact integers or single correctly rounded quotients; STL reader and writer rounding directions compose to the identity for the table's frame rates. No formatter rounds to nearest or up; no division by a truncated quotient. Whole-unit accessors of Duration are not scaled afterwards; no rounding anywhere in the writers.",
  "C09": " Added: removal and clamping are decided against the origin only (EndAt <= 0, StartAt vs 0).",
- "C10": " Added: the window sweep runs to the maximum end over all cues, advances by exactly f, and never inserts into a slice being ranged over (two genuine defects repaired).",
- "C11": " Added: the merge relation is also extracted when && is compiled to a phi; sameness must be an equality of Item.String() results.",
+ "C10": " Added: the window sweep runs to the maximum end over all cues, advances by exactly f, and never inserts into a slice being ranged over (two genuine defects repaired). Fragment has no early return other than for an empty list or a non-positive period.",
+ "C11": " Added: the merge relation is also extracted when && is compiled to a phi; sameness must be an equality of Item.String() results. The early-exit test never uses an end loaded before the scan; the identity strings are strings.Join results.",
  "C18": " Added: no function manufactures an end-of-input sentinel (a failure cannot be turned into a clean end).",
+ "C13": " RemoveStyling has no early return other than for an empty cue list.",
+ "C19": " Dates supplied in the metadata are honoured independently of each other.",
+ "C20": " Results never alias unexported package-level slices or maps.",
 }
 for k, v in TECH_ADD.items():
     TECH[k] += "; " + v
